@@ -168,6 +168,7 @@ def _c09_crash(ctx):
 
 CHECKS["C09"] = Spec(
     prop_file="C09.v",
+    skeleton="C09",
     tools=["sthdrive", "witness", "crashdrive"],
     extra=_c09_crash,
     weights=dict(put=34, get=10, has=2, size=2, remove=12, flush=10, rebits=9, missize=3, reopen=2, igc=2, pgc=3),
@@ -1304,6 +1305,7 @@ def _leg_check(ctx):
 CHECKS["C10"] = Spec(
     prop_file="C10.v",
     weights=None,
+    skeleton="C10",
     tools=["witness", "legdrive"],
     rule="see case_rule",
     extra=_leg_check,
@@ -1577,6 +1579,8 @@ SKEL_GOALS = {
     "C17": "wf_C17 skel_Store_Close skel_Store_run skel_primaryGC_run skel_primaryGC_close skel_MultihashPrimary_Close skel_Index_garbageCollector skel_Index_Close",
     "C05": "wf_C05 skel_Index_Put skel_Index_update skel_Index_remove skel_Index_Get skel_Index_Flush skel_MultihashPrimary_Flush skel_Store_commit skel_Store_Put skel_Store_Remove",
     "C06": "wf_C06 skel_Store_Get skel_Store_Has skel_Store_GetSize skel_Store_Put skel_Store_Remove skel_primaryGC_reapRecords skel_primaryGC_gc",
+    "C09": "wf_C09 skel_OpenStore skel_translateIndex skel_finishIndexTranslation",
+    "C10": "wf_C10 skel_remapIndex",
     "C14": "wf_C14 [skel_FileCache_Open; skel_FileCache_Close; skel_FileCache_Remove; skel_FileCache_Clear; skel_FileCache_SetCacheSize; skel_FileCache_Len; skel_FileCache_Cap]",
 }
 
